@@ -65,7 +65,21 @@ def steps_search(inp):
                 if abs(q - round(q)) >= Fraction(1, 10 ** 6) and got != q.numerator // q.denominator:
                     return {'violates': True, 'input': {'start_time': start, 'end_time': end, 'dt': dt},
                             'observed_steps': int(got), 'required_steps': int(q.numerator // q.denominator)}
-    return {'violates': False, 'searched': 'dt in 10 literals x start in 3 x m<=1000, ends just below grid points, and dt from 1e-9 to 1e3'}
+    # large offsets: start_time many steps away from zero (the literal of start + m dt is then rounded by many units of the step fraction)
+    for dts, starts in (('0.001', ('1000000', '123456.789', '-250000')), ('0.1', ('100000000', '-31415926.5')), ('1e-06', ('1000', '0.5'))):
+        dt = float(dts)
+        for ss in starts:
+            start = float(ss)
+            for m in (1, 2, 3, 4, 7, 10, 99, 100, 250, 999, 1000):
+                end = float(Fraction(dts) * m + Fraction(ss))
+                got = _steps_real(target, start, end, dt)
+                if got != m:
+                    return {'violates': True, 'input': {'start_time': start, 'end_time': end, 'dt': dt}, 'observed_steps': int(got), 'required_steps': m}
+                end2 = float(Fraction(dts) * m + Fraction(ss) + Fraction(dts) * Fraction(2, 5))      # clearly off-grid: floor
+                got2 = _steps_real(target, start, end2, dt)
+                if got2 != m:
+                    return {'violates': True, 'input': {'start_time': start, 'end_time': end2, 'dt': dt}, 'observed_steps': int(got2), 'required_steps': m}
+    return {'violates': False, 'searched': 'dt in 10 literals x start in 3 x m<=1000, ends just below grid points, dt from 1e-9 to 1e3, large offsets'}
 
 
 def compute_dynamics_times(inp):
